@@ -205,8 +205,12 @@ def mk_attr_kwargs(h, hs, a, sigs):
     nm = {"name": a["name"]} if a["hasname"] else {}
     if k == "op":
         return hs.Op, nm
+    def var_of(a):
+        # the swept parameter given as the Param OBJECT declared earlier in the same Sim (as the `sim` docstring shows), or by name
+        j = a.get("var_obj")
+        return sigs["_built"][j] if j is not None and j in sigs.get("_built", {}) else a["var"]
     if k == "dc":
-        return hs.Dc, dict(var=a["var"], sweep=mk_sweep(h, hs, a["sweep"]), **nm)
+        return hs.Dc, dict(var=var_of(a), sweep=mk_sweep(h, hs, a["sweep"]), **nm)
     if k == "ac":
         return hs.Ac, dict(sweep=mk_sweep(h, hs, a["sweep"]), **nm)
     if k == "tran":
@@ -219,7 +223,7 @@ def mk_attr_kwargs(h, hs, a, sigs):
     if k == "custom":
         return hs.CustomAnalysis, dict(cmd=a["text"], **nm)
     if k == "sweep":
-        return hs.SweepAnalysis, dict(inner=[mk_attr(h, hs, x, sigs) for x in a["inner"]], var=a["var"], sweep=mk_sweep(h, hs, a["sweep"]), **nm)
+        return hs.SweepAnalysis, dict(inner=[mk_attr(h, hs, x, sigs) for x in a["inner"]], var=var_of(a), sweep=mk_sweep(h, hs, a["sweep"]), **nm)
     if k == "monte":
         return hs.MonteCarlo, dict(inner=[mk_attr(h, hs, x, sigs) for x in a["inner"]], npts=a["n"], **nm)
     if k == "save":
@@ -290,7 +294,14 @@ def build_sim(h, hs, S, shared_tb=None):
         key = a["name"] if a["hasname"] else "_"
         if key == "_" and "_" in body:
             key = f"anon{j}"
-        body[key] = mk_attr(h, hs, a, sigs)
+        if "same_object_as" in a and a["same_object_as"] in sigs["_built"]:
+            obj = sigs["_built"][a["same_object_as"]]
+        else:
+            cls, kw = mk_attr_kwargs(h, hs, a, sigs)
+            if a["k"] != "options":
+                kw.pop("name", None)        # written as in a class body - `mytran = Tran(tstop=1)` - the key gives the name
+            obj = cls(**kw)
+        body[key] = sigs["_built"][j] = obj
     return hs.sim(type("Sim" + S["tbname"], (), body))
 
 
@@ -494,6 +505,22 @@ def gen_groups(tier, seed):
         sw = attr("sweep", var="vdd", sweep=rand_sweep(rnd), inner=[ref] + ([attr("op")] if j % 2 else []))
         mc = attr("monte", n=3 + j, inner=[attr("op"), dict(ref)])
         S = {"tbname": f"tbr{j}", "tb_ok": True, "tbkind": "ok", "attrs": [first, sw, attr("op"), mc][: 3 + (j % 2)], "style": ["proc", "methods"][j % 2]}
+        groups.append({"sims": [S], "share_tb": False, "as_list": False})
+    # systematic: a Sim whose later attributes refer to earlier ones AS OBJECTS (the swept Param, the inner analysis), in every style
+    for j in range(9):
+        n1 = NUMS[j % len(NUMS)]
+        par = attr("param", name="x", hasname=True)
+        par["x1"], par["py"] = dec(exact(n1)), {"x1": n1}
+        tr = attr("tran", name="mytran", hasname=True)
+        tr["x1"], tr["py"] = dec(exact(NUMS[(j + 3) % len(NUMS)])), {"x1": NUMS[(j + 3) % len(NUMS)]}
+        ref = dict(tr)
+        ref["same_object_as"] = 1
+        dc = attr("dc", name="mydc", hasname=True, var="x", sweep=rand_sweep(rnd))
+        dc["var_obj"] = 0
+        sw = attr("sweep", name="mysweep", hasname=True, var="x", sweep=rand_sweep(rnd), inner=[dict(ref)])
+        sw["var_obj"] = 0
+        mc = attr("monte", name="mymc", hasname=True, n=4 + j, inner=[dict(ref), attr("op", name="innerop", hasname=True)])
+        S = {"tbname": f"tbo{j}", "tb_ok": True, "tbkind": "ok", "attrs": [par, tr, dc, sw, mc], "style": ["class", "proc", "methods"][j % 3]}
         groups.append({"sims": [S], "share_tb": False, "as_list": False})
     return groups
 
